@@ -72,7 +72,15 @@ EXTENDS GnosisE2E
 
 KSeq == 1..NK
 
+(* the composition's OWN summary of a keyper's agreed pointer, folded from the same observations as
+   gh (nothing of the C19 ghost's record is read here; only GhostInit, GhostRequestAt, GhostKeys,
+   GhostRestart, RequestFailed, KeysFailed, AgreeOK2 of GnosisSlotProps are used):
+     ap[k]  p+k-1 of the last keys message keyper k processed, 0 from its first request on, None before
+     ac[k]  requests since then (the first request of the eon does not count), Null after a restart
+   There are no failed slot attempts in this composition, so the summary is exact. *)
 GW0 == [gh   |-> [k \in KSeq |-> GhostInit],
+        ap   |-> [k \in KSeq |-> None],
+        ac   |-> [k \in KSeq |-> 0],
         req  |-> [k \in KSeq |-> {}],
         recs |-> {},
         fin  |-> [k \in KSeq |-> {}],
@@ -113,11 +121,14 @@ Processed(w0, a, o, prod) ==
    the trigger found on the channel, slot and tx pointer those of the current_decryption_trigger
    row it wrote *)
 ReqContent(o, w1, k) == Ct(CurOf(w1.kp[k]).slot, CurOf(w1.kp[k]).ptr, o.r.trig.ids)
-(* gk = keyper k's C19 ghost after the request (round 4: AgreeOK2 also compares requests made
-   from the same agreed pointer and the same number of slots counted since) *)
-ReqRec(w0, k, o, hash, gk) ==
+(* ap, ac = the summary after the request (AgreeOK2 also compares requests made from the same
+   agreed pointer gp and the same, exactly known, number gw = {ac} of slots counted since) *)
+ReqRec(w0, k, o, hash, ap, ac) ==
     [k |-> k, slot |-> w0.slot, e |-> TheEon, q |-> QueueObs(w0, k), row |-> RowOf(w0, k), ids |-> o.r.trig.ids, hash |-> hash,
-     gp |-> gk.gp[TheEon], glo |-> gk.glo[TheEon], ghi |-> gk.ghi[TheEon], unk |-> (gk.ga[TheEon] = Null)]
+     gp |-> ap, gw |-> {ac}]
+ApAfterRequest(g, k) == IF g.ap[k] = None THEN 0 ELSE g.ap[k]
+AcAfterRequest(g, k) == IF g.ap[k] = None THEN 0 ELSE IF g.ac[k] = Null THEN Null ELSE g.ac[k] + 1
+Outdated(ac) == ac = Null \/ ac > MaxAge
 
 (* observational tags: which paths of the code the step took *)
 TagsOf(g0, g1, w0, a, o, prod, w1) ==
@@ -125,7 +136,7 @@ TagsOf(g0, g1, w0, a, o, prod, w1) ==
     CASE a.a = "tick" ->
            {"tick-" \o o.r.out} \cup
            (IF o.r.err # "" THEN {"tick-" \o o.r.err} ELSE {}) \cup
-           (IF o.r.out = "emit" /\ (g1.gh[k].ga[TheEon] = Null \/ g1.gh[k].ga[TheEon] > MaxAge) THEN {"fallback"} ELSE {}) \cup
+           (IF o.r.out = "emit" /\ Outdated(g1.ac[k]) THEN {"fallback"} ELSE {}) \cup
            (IF o.r.out = "emit" /\ Len(o.r.trig.ids) > 1 THEN {"tx-requested"} ELSE {}) \cup
            (IF o.r.out = "emit" /\ \E r \in g0.recs : r.k # k /\ r.ids # o.r.trig.ids THEN {"lists-differ"} ELSE {})
       [] a.a = "dlv" /\ a.m.t = "shares" ->
@@ -150,20 +161,23 @@ TagsOf(g0, g1, w0, a, o, prod, w1) ==
 GhostNextE(g, w0, a, o, prod, w1, hash) ==
     LET k == a.n + 1
         g1 == CASE a.a = "tick" /\ o.r.out = "emit" ->
-                     LET gk == GhostRequestAt(g.gh[k], TheEon, w0.slot) IN
-                     [g EXCEPT !.gh[k] = gk,
+                     [g EXCEPT !.gh[k] = GhostRequestAt(@, TheEon, w0.slot),
+                               !.ap[k] = ApAfterRequest(g, k), !.ac[k] = AcAfterRequest(g, k),
                                !.req[k] = @ \cup {ReqContent(o, w1, k)},
-                               !.recs = @ \cup {ReqRec(w0, k, o, hash, gk)}]
+                               !.recs = @ \cup {ReqRec(w0, k, o, hash, ApAfterRequest(g, k), AcAfterRequest(g, k))}]
                 [] a.a = "dlv" ->
                      LET pr == Processed(w0, a, o, prod)
                          acc == {prod[i].m.c : i \in {j \in DOMAIN prod : prod[j].m.t = "keys" /\ prod[j].an = "accept"}} IN
                      [g EXCEPT !.gh[k] = IF pr = {} THEN @
                                          ELSE LET c == CHOOSE x \in pr : TRUE IN GhostKeys(@, TheEon, c.p, Len(c.ids)),
+                               !.ap[k] = IF pr = {} THEN @ ELSE LET c == CHOOSE x \in pr : TRUE IN c.p + Len(c.ids) - 1,
+                               !.ac[k] = IF pr = {} THEN @ ELSE 0,
                                !.fin[k] = @ \cup {c \in pr : c.slot = w0.slot},
                                !.ann[k] = @ \cup {c \in Announced(w0, k, prod) : c.slot = w0.slot},
                                !.an = @ \cup {c \in acc : c.slot = w0.slot}]
                 [] a.a = "drop" -> [g EXCEPT !.lost[k] = @ + 1]
-                [] a.a = "restart" -> [g EXCEPT !.gh[k] = GhostRestart(@), !.rst = @ \cup {k}]
+                [] a.a = "restart" -> [g EXCEPT !.gh[k] = GhostRestart(@), !.ac[k] = IF g.ap[k] = None THEN @ ELSE Null,
+                                                 !.rst = @ \cup {k}]
                 [] a.a = "slot" ->
                      [g EXCEPT !.req = [x \in KSeq |-> {}], !.recs = {}, !.fin = [x \in KSeq |-> {}], !.ann = [x \in KSeq |-> {}], !.an = {},
                                !.lost = [x \in KSeq |-> 0], !.rst = {}, !.tags = {}]
